@@ -11,8 +11,9 @@
 //!   `ParolLsGrammar::format` → `<&ParolLs as Format>::format`. The single whole-document edit is
 //!   applied, the result is formatted a second time, and the original and the formatted text are
 //!   lexed with the REAL parol-ls scanner. Reply:
-//!     `ok <sig tokens orig> <comments orig> <sig tokens formatted> <comments formatted> <idempotent 0|1>`
-//!   (token lists `type:hex,…` / `-`), or `panic <file:line> trailing=<n>` (n = number of comments
+//!     `ok <sig tokens orig> <comments orig> <sig tokens formatted> <comments formatted> <idempotent 0|1> f:<flags>`
+//!   (token lists `type:hex,…` / `-`; one flag per original comment, see `comment_flags`), or
+//!   `panic <file:line> trailing=<n> f:<flags>` (n = number of comments
 //!   after the last `;` token: the structural signature of finding F17), `unparsable` (the
 //!   ORIGINAL has a syntax error; not a formatter case), `reparse-failed …`, `edits-unexpected`.
 //!   The Lean handler `fmt-check` decides the property on the reply.
@@ -147,6 +148,99 @@ pub fn trailing_comments(text: &str) -> usize {
     }
 }
 
+fn term_index(name: &str) -> usize {
+    crate::parol_ls_parser::TERMINAL_NAMES.iter().position(|n| *n == name).unwrap_or(usize::MAX)
+}
+
+/// One flag set per comment of `text` (structural signatures of the listed findings, evaluated on
+/// the ORIGINAL text), as a number: bit 0 (1) — the comment lies after the last `;` (F17); bit 1 (2) —
+/// between the comment and the `;` that ends its production there is a `|` inside a group / option /
+/// repetition (F32: that is where pending comments are dropped); bit 2 (4) — the comment directly
+/// follows a significant token on the same line (a "trailing" comment, which the formatter emits
+/// ahead of comments that are still pending: F34); bit 3 (8) — the comment follows such a trailing
+/// LINE comment with only blanks / line breaks in between (F31: the line end of a trailing line comment
+/// is removed and the next comment is appended to its line). Rendered `f:<flags>@<start byte>-<end byte>,…` / `f:-`.
+pub fn comment_flags(text: &str) -> String {
+    let toks = lex(Which::Ls, text);
+    let (semi, or) = (term_index("Semicolon"), term_index("Or"));
+    let open = [term_index("LParen"), term_index("LBracket"), term_index("LBrace")];
+    let close = [term_index("RParen"), term_index("RBracket"), term_index("RBrace")];
+    let last_semi = toks.iter().rposition(|t| t.ty == semi);
+    // bracket depth in front of every token (reset by `;`)
+    let mut depth = vec![0i32; toks.len() + 1];
+    for (i, t) in toks.iter().enumerate() {
+        let d = depth[i];
+        depth[i + 1] = if t.ty == semi {
+            0
+        } else if open.contains(&t.ty) {
+            d + 1
+        } else if close.contains(&t.ty) {
+            (d - 1).max(0)
+        } else {
+            d
+        };
+    }
+    let mut flags: Vec<String> = vec![];
+    let mut trailing_line: Vec<usize> = vec![];
+    for (i, t) in toks.iter().enumerate() {
+        if !is_comment(t.ty) {
+            continue;
+        }
+        let mut f = 0usize;
+        if last_semi.is_some_and(|l| i > l) {
+            f |= 1;
+        }
+        for j in i + 1..toks.len() {
+            if toks[j].ty == semi {
+                break;
+            }
+            if toks[j].ty == or && depth[j] >= 1 {
+                f |= 2;
+                break;
+            }
+        }
+        // trailing: previous token significant, or whitespace (type 2, no line break) after a significant one
+        let prev_sig = |k: usize| k < toks.len() && !is_skip(toks[k].ty);
+        if (i >= 1 && prev_sig(i - 1)) || (i >= 2 && toks[i - 1].ty == 2 && prev_sig(i - 2)) {
+            f |= 4;
+        }
+        // follows (only blanks and line breaks in between) a trailing LINE comment
+        let mut k = i;
+        while k > 0 && (toks[k - 1].ty == 1 || toks[k - 1].ty == 2) {
+            k -= 1;
+        }
+        if k > 0 && toks[k - 1].ty == 3 && trailing_line.contains(&(k - 1)) {
+            f |= 8;
+        }
+        if toks[i].ty == 3 && f & 4 != 0 {
+            trailing_line.push(i);
+        }
+        flags.push(format!("{f}@{}-{}", t.start, t.end));
+    }
+    format!("f:{}", if flags.is_empty() { "-".to_string() } else { flags.join(",") })
+}
+
+/// `text` with the comments of the given indices (in scanner order) replaced by a blank / a line break.
+pub fn without_comments(text: &str, drop: &[usize]) -> String {
+    let toks = lex(Which::Ls, text);
+    let mut out = String::new();
+    let mut k = 0usize;
+    for t in &toks {
+        let piece = &text[t.start..t.end];
+        if is_comment(t.ty) {
+            if drop.contains(&k) {
+                out.push_str(if piece.ends_with('\n') || piece.ends_with('\r') { "\n" } else { " " });
+            } else {
+                out.push_str(piece);
+            }
+            k += 1;
+        } else {
+            out.push_str(piece);
+        }
+    }
+    out
+}
+
 thread_local! {
     static LAST_PANIC_AT: std::cell::RefCell<String> = const { std::cell::RefCell::new(String::new()) };
 }
@@ -168,7 +262,12 @@ fn fmt_case(o: &Opt, text: &str) -> String {
     let first = catch_unwind(AssertUnwindSafe(|| format_text(text, o)));
     let f1 = match first {
         Err(_) => {
-            return format!("panic {} trailing={}", LAST_PANIC_AT.with(|c| c.borrow().clone()), trailing_comments(text));
+            return format!(
+                "panic {} trailing={} {}",
+                LAST_PANIC_AT.with(|c| c.borrow().clone()),
+                trailing_comments(text),
+                comment_flags(text)
+            );
         }
         Ok(Err(FmtErr::Unparsable)) => return "unparsable".into(),
         Ok(Err(FmtErr::NoResult)) => return "no-result".into(),
@@ -186,10 +285,12 @@ fn fmt_case(o: &Opt, text: &str) -> String {
                 trailing_comments(&f1)
             );
         }
-        Ok(Err(e)) => return format!("reparse-failed {e:?} {so} {co} {sf} {cf}"),
+        Ok(Err(e)) => return format!("reparse-failed {e:?} {so} {co} {sf} {cf} {}", comment_flags(text)),
         Ok(Ok(f2)) => f2 == f1,
     };
-    format!("ok {so} {co} {sf} {cf} {}", idem as u8)
+    // a run that is not idempotent also reports the once-formatted text (for the attribution)
+    let f1_word = if idem { String::new() } else { format!(" f1={} g{}", hex_text(&f1), &comment_flags(&f1)[1..]) };
+    format!("ok {so} {co} {sf} {cf} {} {}{f1_word}", idem as u8, comment_flags(text))
 }
 
 pub fn run_case(w: &[&str]) -> Option<String> {
@@ -198,6 +299,12 @@ pub fn run_case(w: &[&str]) -> Option<String> {
             let o = parse_opt(bits, len)?;
             let text = unhex_text(t)?;
             Some(fmt_case(&o, &text))
+        }
+        // counterfactual for attribution: the text with some comments (indices in scanner order) removed
+        ["text-without", t, idx] => {
+            let text = unhex_text(t)?;
+            let drop: Vec<usize> = pv::util::parse_nats(idx)?;
+            Some(hex_text(&without_comments(&text, &drop)))
         }
         // the formatted text itself (for replays / reports)
         ["fmt-show", bits, len, t] => {
@@ -250,7 +357,7 @@ fn boundaries(text: &str) -> Vec<usize> {
 fn comment_text(kind: usize, n: usize) -> String {
     match kind {
         0 => format!(" {LINE_C}{n}\n"),
-        1 => format!(" {BLOCK_C} "),
+        1 => format!(" /* bc{n} */ "),
         2 => format!("\n/* multi\n   line {n} */\n"),
         _ => format!("\n{LINE_C}{n}\n{LINE_C}{n}b\n"),
     }
